@@ -19,12 +19,46 @@
       whatever object type is reached, every collected field is defined on it, field types are
       output types, type conditions name composite types, the fuel suffices;
       [doc_positions_okb D] — no two selection nodes of [D] share a position, lines < 2^24;
-      [type_names_okb S] — type names have no zero byte.
-    Quantification: all schemas, documents, variable environments, outcome trees — no bound. *)
+      [type_names_okb S] — type names have no zero byte;
+      [dirs_evaluable D E] (implied by [doc_ok]) — every @skip/@include condition has a boolean
+      value (a literal, or a variable whose coerced value is a boolean).
+    Quantification: all schemas, documents, variable environments, outcome trees — no bound.
+
+    INTERFACE TO C04 / C05 / C06 (what the neighbours have to deliver to discharge the hypotheses
+    for a real request; none of it is assumed silently, each is a boolean hypothesis above):
+      validate_ok_doc_ok (C04):  for the view [S] of an accepted schema and the abstraction [R] of
+        a parsed document, if ValidateDocument returns no error, then for every operation [o] of
+        [R] and every [E] that gives a boolean to every variable used in a directive of [o] or of
+        a fragment,   exists n, doc_ok S (doc_of R o) E (default_fuel (doc_of R o)) n = true.
+        Ingredients on C04's side: fields-on-correct-type + leaf-field-selections (every collected
+        field is defined on every possible object type: [sels_ok]), fragment-spread-type-existence
+        + fragments-on-composite-types ([conds_ok]: no type condition names a leaf or input
+        type), fragment-spreads-must-not-form-cycles + known-fragment-names (with
+        [C01_collect_fuel_sufficient] the fuel never runs out, so [s_collect] is never [None]),
+        directives-are-defined + argument rules + variables-are-defined (conditions are literals
+        or declared Boolean variables).  [n] only bounds the depth of the recursion over TYPES
+        (one step per level of field nesting after merging).
+      coerce_ok_dirs_evaluable (C05): CoerceVariableValues succeeding on a validated operation
+        gives every declared Boolean! variable (and every Boolean variable that has a value or a
+        non-null default) a boolean; the one remaining case — a nullable variable with a default,
+        explicitly given null — is the case [dirs_evaluable] excludes (see
+        [C01_collect_cache_transparent_refuted_unevaluable]).
+      parse_pos_injective (C06_parse_pos_injective): distinct nodes of a parsed document have
+        distinct positions: [doc_positions_okb]; schema.New's name check gives [type_names_okb].
+
+    FOR C03 (no crash, no hang): [C01_exec_total] / [C01_request_total] need exactly
+      (1) an accepted schema:            type_names_okb S = true;
+      (2) a parsed, validated document:  doc_positions_okb D = true  and  doc_ok S D E fuel n = true
+                                         for some n (with fuel = default_fuel D: [C01_exec_total_default_fuel]);
+      (3) any outcome tree W of ordinary values (nil, typed nil, leaf values, slices, object
+          values, resolver errors): W is universally quantified, there is no hypothesis on it.
+    Nothing else: no bound on sizes, no hypothesis on resolvers' outcomes, none on variables
+    beyond what [doc_ok] says about directive conditions. *)
 From Coq Require Import List NArith ZArith Bool.
 From ApiFu Require Import Base.Sexp Exe.ExecData Exe.ExecModel Exe.ExecSpec Exe.ExecHyps
      Exe.ExecBaseProofs Exe.ExecSpecProofs Exe.ExecCacheProofs Exe.ExecProofs
-     Exe.ExecOrderProofs Exe.ExecShapeProofs Exe.ExecFuelProofs Exe.ExecVisibleProofs.
+     Exe.ExecOrderProofs Exe.ExecShapeProofs Exe.ExecFuelProofs Exe.ExecVisibleProofs Exe.ExecRequestProofs
+     Exe.ExecKeyOrder Exe.ExecKeyOrderProofs.
 Import ListNotations.
 
 (** The executor finishes: no panic, fragment expansion never runs out of fuel. *)
@@ -32,6 +66,12 @@ Theorem C01_exec_total : forall S D E fuel n W,
   type_names_okb S = true -> doc_positions_okb D = true -> doc_ok S D E fuel n = true ->
   exists d errs, run fixed S D E fuel W = Done d errs.
 Proof. exact (fun S D E fuel n W Hn Hp Hd => exec_total S D E fuel Hn Hp n Hd W). Qed.
+
+(** the instance C03 uses: the fuel the executor model is run with in the check *)
+Theorem C01_exec_total_default_fuel : forall S D E n W,
+  type_names_okb S = true -> doc_positions_okb D = true -> doc_ok S D E (default_fuel D) n = true ->
+  exists d errs, run fixed S D E (default_fuel D) W = Done d errs.
+Proof. exact (fun S D E n W Hn Hp Hd => exec_total S D E (default_fuel D) Hn Hp n Hd W). Qed.
 
 (** data is exactly the reference's data: response keys in document order after fragment
     expansion, merging, @skip/@include; leaves coerced; null in place of a failed nullable
@@ -87,6 +127,46 @@ Theorem C01_collect_cache_transparent : forall S D E fuel W,
   run fixed S D E fuel W = run fixed_nomemo S D E fuel W.
 Proof. exact (fun S D E fuel W Hn Hp Hev => collect_cache_transparent S D E fuel Hn Hp W Hev). Qed.
 
+(** ... and it is not when a condition cannot be evaluated: collectFields reports the directive's
+    error on a cache miss only ({ l { a @include(if: $s) } }, l a list of two objects, no value for
+    $s: one error with the cache, two without).  This is why [dirs_evaluable] is a hypothesis. *)
+Theorem C01_collect_cache_transparent_refuted_unevaluable :
+  exists S D E fuel W,
+    type_names_okb S = true /\ doc_positions_okb D = true /\ dirs_evaluable D E = false /\
+    exists d e, run fixed S D E fuel W = Done d [e] /\ run fixed_nomemo S D E fuel W = Done d [e; e].
+Proof. exact collect_cache_transparent_refuted_unevaluable. Qed.
+
+(** stage B: GetOperation.  The executor's loop over the definitions selects exactly the operation
+    the specification determines (no name: the only operation; a name: the only operation of
+    that name) ... *)
+Theorem C01_get_operation_refines_spec : forall R opname o,
+  get_operation R opname = GOp o <-> s_get_operation R (opname_of opname) = Some o.
+Proof. exact get_operation_refines_spec. Qed.
+
+(** ... a request that determines an operation is executed as that operation (so every theorem of
+    this file speaks about [run_request] through [doc_of R o]) ... *)
+Theorem C01_run_request_selected : forall M S R opname E fuel W o,
+  s_get_operation R (opname_of opname) = Some o ->
+  run_request M S R opname E fuel W = run M S (doc_of R o) E fuel W.
+Proof. exact run_request_selected. Qed.
+
+(** ... and one that does not (no name and several operations, no or several operations of the
+    name) is refused: no data, exactly one error, without path. *)
+Theorem C01_run_request_refused : forall M S R opname E fuel W,
+  s_get_operation R (opname_of opname) = None ->
+  exists e, run_request M S R opname E fuel W = Done None [e] /\ e_path e = [].
+Proof. exact run_request_refused. Qed.
+
+(** whole requests never crash: composed statement for C03 *)
+Theorem C01_request_total : forall S R opname E n W,
+  type_names_okb S = true ->
+  (forall o, s_get_operation R (opname_of opname) = Some o ->
+     doc_positions_okb (doc_of R o) = true /\
+     doc_ok S (doc_of R o) E (default_fuel (doc_of R o)) n = true) ->
+  forall fuel, (forall o, s_get_operation R (opname_of opname) = Some o -> fuel = default_fuel (doc_of R o)) ->
+  exists d errs, run_request fixed S R opname E fuel W = Done d errs.
+Proof. exact request_total. Qed.
+
 (** stage 2: response keys are in document order after fragment expansion, merging and
     @skip/@include: the root object's keys are the response keys of the collected field nodes
     ([s_collect_flat]: the selected field nodes in document order) in order of first appearance.
@@ -108,6 +188,27 @@ Theorem C01_selection_set_order : forall S D E fuel n children ot sels path j,
     s_collect_flat S D E fuel ot sels [] = Some (visited, flat) /\
     j = JObj kvs /\ map fst kvs = first_occurrences (map fst flat) [].
 Proof. exact (fun S D E fuel n children ot sels path j => selection_set_order S D E fuel n children ot sels path j). Qed.
+
+(** stage B: the same as ONE recursive predicate over the whole data (Exe/ExecKeyOrder.v):
+    [ordered_obj S D E fuel ot sels kvs] — the entries [kvs] of an object are, in this order, one
+    per group of CollectFields(ot, sels) (field nodes after fragment expansion and
+    @skip/@include, grouped by response key in order of first appearance), each under its
+    group's key, and each value is [ordered] for the group's field type and field nodes: null, a
+    list of ordered items, a leaf, or an object that is [ordered_obj] for a possible object type
+    of the field's type and the MERGED sub-selections of the group's field nodes. *)
+Theorem C01_exec_data_ordered : forall S D E fuel n W j errs,
+  type_names_okb S = true -> doc_positions_okb D = true -> doc_ok S D E fuel n = true ->
+  run fixed S D E fuel W = Done (Some j) errs ->
+  exists rt kvs, s_root_type S (op_kind D) = Some rt /\ j = JObj kvs /\
+                 ordered_obj S D E fuel rt (op_sels D) kvs.
+Proof. exact exec_data_ordered. Qed.
+
+(** ... which contains the statement about the keys, for every object at every depth *)
+Theorem C01_ordered_obj_keys : forall S D E fuel ot sels kvs,
+  ordered_obj S D E fuel ot sels kvs ->
+  exists visited flat, s_collect_flat S D E fuel ot sels [] = Some (visited, flat) /\
+                       map fst kvs = first_occurrences (map fst flat) [].
+Proof. exact ordered_obj_keys. Qed.
 
 (** stage 2: the shape of every reported error.  It belongs to a field instance of the execution
     ([field_instance]: a field at response path p selected by the field nodes [fields], reached
@@ -173,6 +274,14 @@ Theorem C01_exec_data_finite_refuted_before_fix7 :
 Proof. exact exec_data_finite_refuted_before_fix7. Qed.
 
 Print Assumptions C01_exec_total.
+Print Assumptions C01_exec_total_default_fuel.
+Print Assumptions C01_collect_cache_transparent_refuted_unevaluable.
+Print Assumptions C01_get_operation_refines_spec.
+Print Assumptions C01_run_request_selected.
+Print Assumptions C01_run_request_refused.
+Print Assumptions C01_request_total.
+Print Assumptions C01_exec_data_ordered.
+Print Assumptions C01_ordered_obj_keys.
 Print Assumptions C01_exec_data_eq.
 Print Assumptions C01_exec_errors_sound.
 Print Assumptions C01_exec_errors_subseq.
